@@ -3,4 +3,9 @@
 using namespace IMATH_INTERNAL_NAMESPACE;
 #include "main.h"
 #include "ops_leaf.h"
-int main (int argc, char** argv) { return symns::sym_main (argc, argv); }
+#include "c08_modes.h" // extra modes ratwit / rateval / ratargs / ratwith used by tools/props/c08.py; every other mode is sym_main's
+int main (int argc, char** argv)
+{
+    int rc = c08modes::extra_main (argc, argv);
+    return rc >= 0 ? rc : symns::sym_main (argc, argv);
+}
